@@ -222,6 +222,8 @@ func c10(c *Ctx) {
 	}
 	c.msgIDFormula("R10.C")
 
+	r.Rule("R10.B", "the body sent under a msg_id is the encoding of the request the id was drawn for: the bytes tl.Marshal returns belong to a buffer made by that call and kept by nobody else (sendPacket marshals before it takes the send lock; an acknowledgement encoded meanwhile must not overwrite them)", 1)
+	c.marshalOwnsResult("R10.B")
 	// ---- R10.A ----------------------------------------------------------------------------------
 	c.everyMessageDispatched("R10.A")
 	if pr := c.fn("R10.A", load.RootMod, "*MTProto", "processResponse"); pr != nil {
@@ -268,7 +270,7 @@ func c10(c *Ctx) {
 			okAck := false
 			for _, in := range oddB.Instrs {
 				call, ok := in.(*ssa.Call)
-				if !ok || !strings.HasSuffix(an.CalleeName(call.Common()), "MTProto).MakeRequest") {
+				if !ok || !(strings.HasSuffix(an.CalleeName(call.Common()), "MTProto).MakeRequest") || strings.HasSuffix(an.CalleeName(call.Common()), "MTProto).makeRequest")) { // MakeRequest is a one-line wrapper of makeRequest
 					continue
 				}
 				if !strings.Contains(tr.OriginString(call.Call.Args[1]), "alloc:objects.MsgsAck") {
